@@ -121,13 +121,14 @@ fn run_set<S: PS>(ctx: &Ctx) -> Acc {
         acc.count("base_tuples_valid", 1);
         let v0 = acc.violations.len();
         let fields: [(&str, usize); 4] = [("sig", t.sig.len() * 8), ("pk", t.pk.len() * 8), ("message", t.m.len() * 8), ("ctx", t.cx.len() * 8)];
-        let pk_obj = S::pk_from(&t.pk).unwrap();
         for (fname, nbits) in fields {
             if nbits == 0 {
                 continue;
             }
             let chunks = 64usize.min(nbits);
             let res = par_map(chunks, |c| {
+                // own key object per worker (key types need not be Sync)
+                let pk_obj = S::pk_from(&t.pk).unwrap();
                 let mut a = Acc::new();
                 let lo = c * nbits / chunks;
                 let hi = (c + 1) * nbits / chunks;
